@@ -147,7 +147,10 @@ def confirm_violations(res, pool, spaces=()):
     """Re-execute every reported violation once more; it must reproduce identically."""
     diff = {sp.name: sp for sp in spaces if getattr(sp, "differential", False)}
     dogs = {sp.name: sp.watchdog for sp in spaces}
-    nondet = {sp.name for sp in spaces if getattr(sp, "nondeterminism_is_violation", False)}
+    # an outcome that is wrong in one execution and different in the next one: for a fixed expectation (table) the first wrong
+    # answer already is the violation; harness-level resource kills are never counted
+    nondet = {sp.name for sp in spaces if getattr(sp, "nondeterminism_is_violation", False) or sp.oracle == "table"}
+    by_name = {sp.name: sp for sp in spaces if sp.oracle == "table"}
     by_runner = {}
     for v in res.violations:
         by_runner.setdefault((v["runner"], dogs.get(v["space"])), []).append(v)
@@ -162,6 +165,14 @@ def confirm_violations(res, pool, spaces=()):
                     flaky.append((vs[idx], obs))
                 continue
             if obs != vs[idx]["observed"]:
+                spx = by_name.get(vs[idx]["space"])
+                still_wrong = (spx is not None and "\x00" not in out and HOST_RESOURCE not in (obs, vs[idx]["observed"])
+                               and not obs.startswith(FRAMEWORK) and not spx.agree(vs[idx]["expected"], obs, vs[idx]["case_id"]))
+                if still_wrong:
+                    # a fixed expectation (table / reference) and two different wrong answers: wrong both times
+                    vs[idx]["second_execution_observed"] = obs
+                    vs[idx]["observed"] += "   [a second execution of the same case observed another wrong outcome: %s]" % obs[:200]
+                    continue
                 if vs[idx]["space"] in nondet and HOST_RESOURCE not in (obs, vs[idx]["observed"]) and not obs.startswith(FRAMEWORK):
                     vs[idx]["second_execution_observed"] = obs
                     vs[idx]["observed"] += "   [a second execution of the same case observed: %s]" % obs[:200]
